@@ -375,3 +375,92 @@ func closureWrites(cell *ssa.Alloc) bool {
 	}
 	return false
 }
+
+// apiClosure returns a predicate on declared functions: those of package rel that an exported method of the named
+// receiver type (or, with recv == "", an exported function of the package) reaches through static calls inside
+// the package, function literals included. Extracting a helper, turning a method into a function or merging two
+// helpers keeps the code inside the closure.
+func apiClosure(p *core.Program, rel, recv string) func(obj *types.Func) bool {
+	path := mod
+	if rel != "" {
+		path += "/" + rel
+	}
+	set := map[*types.Func]bool{}
+	var work []*ssa.Function
+	add := func(f *ssa.Function) {
+		root := f
+		for root != nil && root.Parent() != nil {
+			root = root.Parent()
+		}
+		if root == nil || core.FnPkgPath(root) != path {
+			return
+		}
+		if obj, ok := root.Object().(*types.Func); ok && !set[obj] {
+			set[obj] = true
+			work = append(work, root)
+		}
+	}
+	for _, fn := range pkgFuncs(p, rel) {
+		obj, _ := fn.Object().(*types.Func)
+		if obj == nil || !obj.Exported() || fn.Parent() != nil {
+			continue
+		}
+		sig := obj.Type().(*types.Signature)
+		switch {
+		case recv == "" && sig.Recv() == nil:
+			add(fn)
+		case recv != "" && sig.Recv() != nil && namedTypeName(derefType(sig.Recv().Type())) == recv:
+			add(fn)
+		}
+	}
+	for len(work) > 0 {
+		fn := work[len(work)-1]
+		work = work[:len(work)-1]
+		var visit func(f *ssa.Function)
+		visit = func(f *ssa.Function) {
+			for _, c := range eng.Calls(f) {
+				if g := eng.StaticCallee(c); g != nil {
+					add(g)
+				}
+			}
+			for _, a := range f.AnonFuncs {
+				visit(a)
+			}
+		}
+		visit(fn)
+	}
+	return func(obj *types.Func) bool { return set[obj] }
+}
+
+func derefType(t types.Type) types.Type {
+	if pt, ok := t.(*types.Pointer); ok {
+		return pt.Elem()
+	}
+	return t
+}
+
+// loopUsers: a loop inside an iterator helper (a function with a function-typed parameter) stands for one loop
+// per place that hands the helper a body; returns the calling functions (nil for an ordinary function).
+func loopUsers(p *core.Program, fn *ssa.Function) []string {
+	hasCb := false
+	for _, prm := range fn.Params {
+		if _, ok := prm.Type().Underlying().(*types.Signature); ok {
+			hasCb = true
+		}
+	}
+	if !hasCb {
+		return nil
+	}
+	var out []string
+	for _, g := range p.SrcFuncs(true) {
+		n := 0
+		for _, c := range eng.Calls(g) {
+			if eng.StaticCallee(c) == fn {
+				n++
+				out = append(out, fmt.Sprintf("%s#%d", short(g), n))
+			}
+		}
+	}
+	sort.Strings(out)
+	return out
+}
